@@ -2,6 +2,7 @@ package transport
 
 import (
 	"context"
+	"sync"
 
 	"github.com/vektah/gqlparser/v2/gqlerror"
 )
@@ -15,6 +16,9 @@ type wsSubscriptionErrorContextKey struct {
 }
 
 type subscriptionError struct {
+	// A producer goroutine may add an error while the subscription is being torn down
+	// (the stream failing because of the cancellation itself).
+	mu   sync.Mutex
 	errs []*gqlerror.Error
 }
 
@@ -52,6 +56,8 @@ type subscriptionError struct {
 // see https://github.com/99designs/gqlgen/pull/2506 for more details
 func AddSubscriptionError(ctx context.Context, err *gqlerror.Error) {
 	subscriptionErrStruct := getSubscriptionErrorStruct(ctx)
+	subscriptionErrStruct.mu.Lock()
+	defer subscriptionErrStruct.mu.Unlock()
 	subscriptionErrStruct.errs = append(subscriptionErrStruct.errs, err)
 }
 
@@ -65,5 +71,8 @@ func getSubscriptionErrorStruct(ctx context.Context) *subscriptionError {
 }
 
 func getSubscriptionError(ctx context.Context) []*gqlerror.Error {
-	return getSubscriptionErrorStruct(ctx).errs
+	subscriptionErrStruct := getSubscriptionErrorStruct(ctx)
+	subscriptionErrStruct.mu.Lock()
+	defer subscriptionErrStruct.mu.Unlock()
+	return append([]*gqlerror.Error(nil), subscriptionErrStruct.errs...)
 }
